@@ -277,7 +277,7 @@ def _gen_dir(rng, tier, policy):
                 u["ref"] = []
     flags = [False, False] if rng.random() < 0.7 else rng.choice(FLAGS)
     fix = rng.random() < 0.2
-    return dict(kind="dir", policy=policy, window_type=wt, lobe=lobe, pad_mode=pad_mode,
+    return dict(kind="dir", fmt_idx=rng.random() < 0.65, policy=policy, window_type=wt, lobe=lobe, pad_mode=pad_mode,
                 pad_constant=float(rng.choice([0, 0, -3, 7])), partial=flags[0], retain=flags[1], F=F,
                 ref_kind=ref_kind, utts=utts, file_prefix="p-" if fix else "", file_suffix=".t" if fix else ".pt")
 
@@ -575,6 +575,7 @@ def _exec_tokens(case, mon):
 
 
 FORMAT_UTT = "{utt_id}@{idx}@{start}@{end}"
+FORMAT_NOIDX = "{utt_id}@{start}@{end}"  # like the command's default: equal windows of an utterance share a name
 
 
 def _write_dir(case, root):
@@ -648,8 +649,10 @@ def _exec_dir(case, mon):
         verdict, _ = _validate(in_dir, case)
         if verdict != "ok":  # the harness must only hand over well-formed directories
             raise RuntimeError("generated directory is not well-formed: " + verdict)
+        with_idx = case.get("fmt_idx", True)
+        fmt = FORMAT_UTT if with_idx else FORMAT_NOIDX
         args = [in_dir, out_dir, "--policy", policy, "--window-type", wt, "--lobe-size", str(lobe),
-                "--format-utt", FORMAT_UTT, "--num-workers", "0", "--quiet",
+                "--format-utt", fmt, "--num-workers", "0", "--quiet",
                 "--file-prefix", case["file_prefix"], "--file-suffix", case["file_suffix"]]
         if mode is not None:
             args += ["--pad-mode", mode, "--pad-constant", str(case["pad_constant"])]
@@ -666,9 +669,12 @@ def _exec_dir(case, mon):
         by_utt = {u["id"]: {} for u in case["utts"]}
         for name in names:
             parts = name.split("@")
-            ok = len(parts) == 4 and parts[0] in by_utt
+            ok = len(parts) == (4 if with_idx else 3) and parts[0] in by_utt
             mon.check(ok, "dir-listing", what="unexpected chunk file", name=name)
-            by_utt[parts[0]][int(parts[1])] = (int(parts[2]), int(parts[3]))
+            if with_idx:
+                by_utt[parts[0]][int(parts[1])] = (int(parts[2]), int(parts[3]))
+            else:  # names carry the window only: what is left is the SET of windows
+                by_utt[parts[0]][(int(parts[1]), int(parts[2]))] = (int(parts[1]), int(parts[2]))
         has_ali = any(u["ali"] is not None for u in case["utts"])
         ali_names = _listing(os.path.join(out_dir, "ali"), case)
         ref_names = _listing(os.path.join(out_dir, "ref"), case)
@@ -690,11 +696,17 @@ def _exec_dir(case, mon):
         for u in case["utts"]:
             T = len(u["feat"])
             got = by_utt[u["id"]]
-            mon.check(sorted(got) == list(range(len(got))), "dir-windows", what="chunk indices not 0..M-1",
-                      utt=u["id"], observed=sorted(got))
-            windows = [got[k] for k in range(len(got))]
             readings = _dir_readings(policy, u, wt, valid, lobe)
-            match = [k for k, ws in readings.items() if [tuple(w) for w in ws] == windows]
+            if with_idx:
+                mon.check(sorted(got) == list(range(len(got))), "dir-windows", what="chunk indices not 0..M-1",
+                          utt=u["id"], observed=sorted(got))
+                windows = [got[k] for k in range(len(got))]
+                match = [k for k, ws in readings.items() if [tuple(w) for w in ws] == windows]
+            else:
+                windows = sorted(got)
+                match = [k for k, ws in readings.items() if sorted({tuple(w) for w in ws}) == windows]
+                if any(len({tuple(w) for w in ws}) < len(ws) for ws in readings.values()):
+                    mon.cls("dir_equal_windows_share_a_name")
             mon.check(bool(match), "dir-windows", utt=u["id"], length=T, observed=windows,
                       expected={k: [list(w) for w in ws] for k, ws in readings.items()},
                       config=dict(policy=policy, window_type=wt, valid_only=valid, lobe_size=lobe))
@@ -705,7 +717,7 @@ def _exec_dir(case, mon):
                           observed=windows)
             for k, w in enumerate(windows):
                 nchunks += 1
-                fn = pre + FORMAT_UTT.format(utt_id=u["id"], idx=k, start=w[0], end=w[1]) + suf
+                fn = pre + fmt.format(utt_id=u["id"], idx=k, start=w[0], end=w[1]) + suf
                 feat = torch.load(os.path.join(out_dir, "feat", fn))
                 want = _expect_frames(u["feat"], w, mode, [case["pad_constant"]] * case["F"])
                 okf = (feat.dim() == 2 and feat.dtype == torch.float and feat.tolist() == want)
